@@ -526,8 +526,77 @@ impl Sub for C13Sub {
     }
 }
 
+// ---------------------------------------------------------------------------
+// structured entry point below the byte level: retained receipt parts
+//
+// `TickReceipt::try_from_retained_parts` is what every retained-provenance decoder calls with
+// whatever entry table and blocker lists the bytes contained. It is fed arbitrary parts
+// directly (the byte-level targets reach it only through correctly framed records).
+
+#[derive(Clone, Debug, serde::Serialize, serde::Deserialize)]
+pub struct PartsCase {
+    /// per entry: disposition (0 applied, 1 footprint conflict, 2 obstruction) and blockers
+    entries: Vec<(u8, Vec<u32>)>,
+    /// extra blocker lists (length mismatch) when non-zero
+    extra_lists: u8,
+}
+
+fn parts_case() -> impl proptest::strategy::Strategy<Value = PartsCase> {
+    use proptest::prelude::*;
+    let blocker = prop_oneof![6 => 0u32..12, 1 => Just(u32::MAX), 1 => 12u32..4000, 1 => any::<u32>()];
+    (prop::collection::vec((prop_oneof![3 => Just(0u8), 3 => Just(1u8), 1 => Just(2u8)], prop::collection::vec(blocker, 0..5)), 0..10), prop_oneof![9 => Just(0u8), 1 => 1u8..3])
+        .prop_map(|(entries, extra_lists)| PartsCase { entries, extra_lists })
+}
+
+fn check_parts(_ctx: &Ctx, c: &PartsCase, probe: &mut vkit::Probe) -> vkit::Check {
+    use warp_core::{NodeKey, TickReceipt, TickReceiptDisposition, TickReceiptEntry, TickReceiptRejection};
+    let entries: Vec<TickReceiptEntry> = c
+        .entries
+        .iter()
+        .enumerate()
+        .map(|(i, (d, _))| TickReceiptEntry {
+            rule_id: [i as u8; 32],
+            scope_hash: [i as u8 + 1; 32],
+            scope: NodeKey { warp_id: warp_core::make_warp_id("root"), local_id: warp_core::NodeId([i as u8; 32]) },
+            disposition: match d {
+                0 => TickReceiptDisposition::Applied,
+                1 => TickReceiptDisposition::Rejected(TickReceiptRejection::FootprintConflict),
+                _ => TickReceiptDisposition::Rejected(TickReceiptRejection::ExecutableOperationObstruction),
+            },
+        })
+        .collect();
+    let mut lists: Vec<Vec<u32>> = c.entries.iter().map(|(_, b)| b.clone()).collect();
+    for _ in 0..c.extra_lists {
+        lists.push(vec![0]);
+    }
+    let r = vkit::catch(|| TickReceipt::try_from_retained_parts(warp_core::TxId::from_raw(1), entries.clone(), lists.clone()));
+    match r {
+        Err(msg) => vkit::vfail!("C13/receipt.retained-parts/panic", "try_from_retained_parts panicked on blocker lists {:?}: {msg}", lists),
+        Ok(Err(_)) => probe.class("typed-error"),
+        Ok(Ok(rc)) => {
+            // accepted parts obey the documented invariants
+            for (i, e) in rc.entries().iter().enumerate() {
+                let b = rc.blocked_by(i);
+                vkit::vensure!(b.windows(2).all(|w| w[0] < w[1]), "C13/receipt.retained-parts/accepted-unsorted-blockers", "entry {i}: {b:?}");
+                vkit::vensure!(b.iter().all(|x| (*x as usize) < i && rc.entries()[*x as usize].disposition == TickReceiptDisposition::Applied), "C13/receipt.retained-parts/accepted-bad-blocker", "entry {i}: {b:?}");
+                vkit::vensure!((e.disposition == TickReceiptDisposition::Rejected(TickReceiptRejection::FootprintConflict)) == !b.is_empty(), "C13/receipt.retained-parts/accepted-disposition-blocker-mismatch", "entry {i}");
+            }
+            probe.class("accepted");
+            if rc.entries().len() >= 3 {
+                probe.nontrivial();
+            }
+        }
+    }
+    if lists.iter().any(|l| l.len() >= 2 && l.windows(2).any(|w| w[0] >= w[1])) {
+        probe.nontrivial();
+        probe.class("unsorted-multi-blocker-list");
+    }
+    Ok(())
+}
+
 pub fn subs(_ctx: &Ctx) -> Vec<Box<dyn Sub>> {
     vec![
+        vkit::prop_sub("structured-receipt-parts", 60_000, 2_000_000, parts_case(), check_parts),
         Box::new(C13Sub { name: "adversarial-templates", kind: 2 }),
         Box::new(C13Sub { name: "seed-mutants", kind: 1 }),
         Box::new(C13Sub { name: "random-bytes", kind: 0 }),
